@@ -108,9 +108,11 @@ def _ptr_locals(e):
     return out
 
 
-def ps2(ctx, prog, cfg):
+def ps2(ctx, prog, cfg, only=None):
     n = 0
     for f in prog.fns.values():
+        if only is not None and f.short not in only:
+            continue
         for b, t in f.calls(False):
             path = mir.callee_path(t)
             if path not in ("core::ptr::drop_in_place", "core::ptr::read", "<*const T>::read", "<*mut T>::read", "<*mut T>::drop_in_place"):
